@@ -101,8 +101,20 @@ def _mp_psi(m):
     return lambda x: mpmath.psi(m, x)
 
 
+def _hyperu_poly(m, b, x):
+    """U(-m, b, x) for an integer m >= 0: the finite sum DLMF 13.2.7 (exact, also at the zeros of the polynomial)"""
+    return (-1) ** m * mpmath.fsum(mpmath.binomial(m, k) * mpmath.rf(b + k, m - k) * (-x) ** k for k in range(m + 1))
+
+
 def _mp_hyperu(a, b):
+    c = 1 + a - b         # exact for the dyadic parameter grid
+
     def f(x):
+        if a <= 0 and a == round(a):
+            return _hyperu_poly(int(round(-a)), mpf(b), x)
+        if c <= 0 and c == round(c):
+            # Kummer transformation U(a, b, x) = x^(1-b) U(1+a-b, 2-b, x)
+            return x ** (1 - mpf(b)) * _hyperu_poly(int(round(-c)), 2 - mpf(b), x)
         try:
             return mpmath.hyperu(a, b, x)
         except ValueError:
@@ -158,7 +170,7 @@ SMOOTH = {
     'gammaln': _S(mpmath.loggamma, scipy.special.gammaln, rng=(0.05, 8.0), slow=True, cap=(10, 14), maxel=2),
     'psi': _S(_mp_psi(0), scipy.special.psi, rng=(-4.9, 6.0), holes=_POLES, slow=True, cap=(10, 14), maxel=2),
     'polygamma': _S(_mp_psi, _np_polygamma, rng=(-4.9, 6.0), holes=_POLES, slow=True, cap=(10, 14), extras='polygamma', maxel=2),
-    'hyperu': _S(_mp_hyperu, _np_hyperu, rng=(0.3, 4.0), slow=True, cap=(7, 12), tol=1e-7, extras='hyperu', maxel=2),
+    'hyperu': _S(_mp_hyperu, _np_hyperu, rng=(0.1, 5.0), slow=True, cap=(7, 12), tol=1e-7, extras='hyperu', maxel=2),
 }
 
 # piecewise constant / linear: name -> (NumPy function of order 0, jump class)
@@ -175,7 +187,21 @@ PIECEWISE = {
 UTILITY = {'np_filled_like'}
 
 HYPERU_A = [0.5, 1, 1.5, 2, 2.5, 3, 1.0, 0.25]
-HYPERU_B = [0.5, 0.75, 1, 1.5, 2, 2.5, 3.25, 1.0]
+# U(a, b, x) is defined for every real a: negative non-integers (the sign of the rising factorial (a)_n matters) and
+# negative integers (polynomial case, (a)_n = 0 for n > -a)
+HYPERU_A_NEG = [-0.5, -1.5, -2.5, -0.25, -0.75, -1.25, -1, -2, -3, -1.0]
+HYPERU_B = [0.5, 0.75, 1, 1.5, 2, 2.5, 3.25, 1.0, -0.5]
+POLYGAMMA_M = st.one_of(st.integers(0, 4), st.integers(0, 12), st.sampled_from([15, 20]))
+
+# within-case cross calls: a second function with the same signature and a compatible domain that is evaluated at the
+# same (x, n) in the same case, before or after the function of the bucket, and checked against ITS reference as well
+# (state shared between functions - e.g. a coefficient cache keyed by n only - shows up deterministically)
+SIBLING = {
+    'erf': 'erfi', 'erfi': 'erf', 'sin': 'cos', 'cos': 'sin', 'sinh': 'cosh', 'cosh': 'sinh',
+    'arcsin': 'arccos', 'arccos': 'arcsin', 'log': 'log2', 'log2': 'log10', 'log10': 'log',
+    'exp': 'expm1', 'expm1': 'exp2', 'exp2': 'exp', 'arctan': 'arcsinh', 'arcsinh': 'arctan',
+    'sqrt': 'log', 'square': 'negative', 'negative': 'square', 'arctanh': 'arcsin',
+}
 
 
 def exported_names():
@@ -327,7 +353,13 @@ def _prop_smooth(case, stats):
     f = _fn(name)
     if not np.all(f.domain(x)):
         raise RuntimeError('generator produced a point outside the declared domain: %s' % what)
+    cross = case.get('cross')
+    sib_ret = None
+    if cross and cross['first']:
+        sib_ret = guard(_fn(cross['f']), x, n=n)
     ret, out = _call(name, extras, x, n, case['out'])
+    if cross and not cross['first']:
+        sib_ret = guard(_fn(cross['f']), x, n=n)
     with mp.workdps(DPS):
         els = _elements(x)
         refs = [_ref(name, extras, v, n) for v in els]
@@ -336,6 +368,13 @@ def _prop_smooth(case, stats):
         _check_values(what, ret, refs, scale_fn, np.shape(x), spec['tol'], stats)
         if out is not None:
             _check_values(what + ' [contents of out]', out, refs, scale_fn, np.shape(x), spec['tol'], stats)
+        if cross:
+            sname = cross['f']
+            srefs = [_ref(sname, (), v, n) for v in els]
+            def sscale_fn(k):
+                return _scale(sname, (), els[k], n, srefs[k])
+            swhat = 'nthderiv.%s(x, n=%d) evaluated %s %s' % (sname, n, 'before' if cross['first'] else 'after', what)
+            _check_values(swhat, sib_ret, srefs, sscale_fn, np.shape(x), SMOOTH[sname]['tol'], stats)
     if n == 0:
         # order 0 is the function itself
         direct = spec['np'](*extras)(x)
@@ -421,9 +460,14 @@ def _form_and_shape(draw, maxel):
 
 def _point(ivs, specials):
     s = st.one_of(*[gen.nice_floats(a, b) for a, b in ivs])
+    # both ends of the admissible set (= the declared domain with its margins): the end points themselves and the
+    # outermost 5 % of the whole range
+    lo, hi = ivs[0][0], ivs[-1][1]
+    w = 0.05 * (hi - lo)
+    ends = st.one_of(st.sampled_from([lo, hi]), gen.nice_floats(lo, min(lo + w, ivs[0][1])), gen.nice_floats(max(hi - w, ivs[-1][0]), hi))
     if specials:
-        s = st.one_of(s, s, st.sampled_from(specials))
-    return s
+        return st.one_of(s, s, s, st.sampled_from(specials), st.sampled_from(specials), ends)
+    return st.one_of(s, s, s, s, ends)
 
 
 def _order(nmax):
@@ -437,9 +481,9 @@ def smooth_cases(draw, name, tier):
     ivs, specials, _ = _admissible(name)
     n = draw(_order(spec['cap'][tier]))
     if spec['extras'] == 'polygamma':
-        extras = [draw(st.integers(0, 4))]
+        extras = [draw(POLYGAMMA_M)]
     elif spec['extras'] == 'hyperu':
-        extras = [draw(st.sampled_from(HYPERU_A)), draw(st.sampled_from(HYPERU_B))]
+        extras = [draw(st.one_of(st.sampled_from(HYPERU_A), st.sampled_from(HYPERU_A_NEG))), draw(st.sampled_from(HYPERU_B))]
     else:
         extras = []
     form, shape = draw(_form_and_shape(spec['maxel']))
@@ -467,25 +511,40 @@ def smooth_cases(draw, name, tier):
     case = {'f': name, 'n': n, 'extras': extras, 'form': form, 'x': _build(form, vals, shape), 'out': draw(st.booleans())}
     if steered:
         case['steered'] = steered
+    sib = SIBLING.get(name)
+    if sib and covered(sib) and n <= SMOOTH[sib]['cap'][tier] and draw(st.booleans()):
+        sivs = _admissible(sib)[0]
+        if all(_inside(sivs, v) for v in vals):
+            case['cross'] = {'f': sib, 'first': draw(st.booleans())}
     return case
 
 
 @st.composite
 def piecewise_cases(draw, name, tier):
     jump = PIECEWISE[name][1]
-    n = draw(_order(10 if tier == 'quick' else 16))
+    nmax = 10 if tier == 'quick' else 16
+    if name in ('clip', 'absolute'):
+        # the first derivative is the only non-trivial one here (indicator of the interval / sign): make it frequent
+        n = draw(st.one_of(st.just(1), st.integers(0, nmax), st.integers(2, nmax)))
+    else:
+        n = draw(_order(nmax))
     form, shape = draw(_form_and_shape(4))
     cnt = int(np.prod(shape, dtype=int))
     extras = []
     lo = hi = None
     if name == 'clip':
-        lo = draw(st.one_of(st.integers(-3, 2), gen.nice_floats(-3.0, 2.0)))
-        hi = lo + draw(st.one_of(st.integers(1, 4), gen.nice_floats(0.5, 4.0)))
+        # a_min <= a_max (a_min > a_max is inadmissible); negative, zero and positive bounds; ints and floats;
+        # now and then the degenerate interval a_min == a_max
+        lo = draw(st.one_of(st.integers(-5, 4), gen.nice_floats(-5.0, 4.0)))
+        if draw(st.integers(0, 7)) == 0:
+            hi = lo
+        else:
+            hi = lo + draw(st.one_of(st.integers(1, 4), gen.nice_floats(0.5, 4.0)))
         extras = [lo, hi]
     k_int = st.integers(-5, 5)
     if n == 0:
         # every point, jumps included
-        cands = [gen.nice_floats(-5.5, 5.5), k_int.map(float), k_int.map(lambda k: k + 0.5), st.sampled_from([0.0, -0.0])]
+        cands = [gen.nice_floats(-8.5, 8.5), k_int.map(float), k_int.map(lambda k: k + 0.5), st.sampled_from([0.0, -0.0])]
         if name == 'clip':
             cands.append(st.sampled_from([float(lo), float(hi)]))
         pt = st.one_of(*cands)
@@ -502,7 +561,7 @@ def piecewise_cases(draw, name, tier):
             region, u = ru
             if region == 0:
                 return lo - 0.05 - 2 * u
-            if region == 1:
+            if region == 1 and hi > lo:
                 return lo + 0.05 + u * (hi - lo - 0.1)
             return hi + 0.05 + 2 * u
         pt = st.tuples(st.sampled_from([1, 0, 2, 1]), gen.nice_floats(0.0, 1.0)).map(place)
@@ -533,9 +592,30 @@ def _classes(case):
     for e in case['extras']:
         c.append('extra-type=' + type(e).__name__)
     if case['f'] == 'polygamma':
-        c.append('m=%d' % case['extras'][0])
+        c.append('m=%02d' % case['extras'][0])
+    if case['f'] == 'hyperu':
+        a, b = case['extras']
+        c.append('hyperu:a=%s' % ('negative-integer' if (a < 0 and a == round(a)) else ('negative-non-integer' if a < 0 else 'positive')))
+        if a < 0:
+            c.append('hyperu:a=%g' % a)
+        c.append('hyperu:b=%s' % ('negative' if b < 0 else ('integer' if b == round(b) else 'positive-non-integer')))
+        if a < 0 and n >= 1:
+            neg = sum(1 for j in range(n) if a + j < 0)
+            c.append('hyperu:a<0:n>=1:%s-number-of-negative-factors' % ('odd' if neg % 2 else 'even'))
+    if case['f'] in SMOOTH and covered(case['f']):
+        ivs = _admissible(case['f'])[0]
+        lo_, hi_ = ivs[0][0], ivs[-1][1]
+        if any(v < 0 for v in el):
+            c.append('dom:%s:x<0' % case['f'])
+        if any(v <= lo_ + 0.1 * (hi_ - lo_) for v in el):
+            c.append('dom:%s:lowest-tenth' % case['f'])
+        if any(v >= hi_ - 0.1 * (hi_ - lo_) for v in el):
+            c.append('dom:%s:highest-tenth' % case['f'])
+    if case.get('cross'):
+        c.append('cross:%s:%s' % (case['cross']['f'], 'first' if case['cross']['first'] else 'after'))
     if case['f'] == 'clip':
         lo, hi = case['extras']
+        c.append('clip:bounds:%s' % ('degenerate' if lo == hi else ('both-negative' if hi < 0 else ('both-positive' if lo > 0 else 'straddle-0'))))
         for v in el:
             c.append('clip:n%s:%s' % ('0' if n == 0 else ('1' if n == 1 else '>=2'),
                                       'at-bound' if v in (lo, hi) else ('below' if v < lo else ('above' if v > hi else 'inside'))))
